@@ -124,7 +124,9 @@ def c13_r3(ctx: Ctx, rule):
                     vname = tgt.id
                 body = n.body if isinstance(n, ast.For) else None
                 ok, how = False, ""
-                if isinstance(n, ast.comprehension):
+                if isinstance(n, ast.comprehension) and vname and any(norm(c) in (vname, "len(%s) > 0" % vname, "len(%s)" % vname) or norm(c).startswith(vname + " and ") for c in n.ifs):
+                    ok, how = True, "empty sets filtered by the comprehension's own condition"
+                elif isinstance(n, ast.comprehension):
                     # [(k, v) for k, vs in m.items() for v in vs]: an empty set contributes nothing
                     ok, how = True, "values only iterated in a nested comprehension clause"
                     comp_parent = [c for c in walk_function(fi.node) if isinstance(c, (ast.ListComp, ast.SetComp, ast.GeneratorExp, ast.DictComp)) and n in c.generators]
@@ -690,3 +692,34 @@ RULES.setdefault("C08", []).append(Rule("C08.R3", "records never share per-attri
                                         "merging into a copy cannot write through to the original record"))
 RULES.setdefault("C13", []).append(Rule("C13.R5", "records never share per-attribute value sets (instance of C12.R1)", 10, c12_r1, "F-OWN",
                                         "unified(), and the exporters built on it, cannot write through a copied record into the source"))
+
+
+@rule("C09", "C09.R7", "add_bundle files the bundle under the requested identifier: the bundle's own identifier is only a fallback", 1, family="F-PATH",
+      decides="add_bundle(b, ex:requested) attaches under ex:requested, and a duplicate requested identifier is refused")
+def c09_r7(ctx: Ctx, rule):
+    res = RuleResult()
+    q = DOC + ".add_bundle"
+    fi = ctx.fn(q)
+    bpar, ipar = fi.params[1], fi.params[2]
+    for n in walk_function(fi.node):
+        if isinstance(n, ast.Assign) and any(isinstance(t, ast.Name) and t.id == ipar for t in n.targets) and "identifier" in norm(n.value) and bpar in norm(n.value):
+            v = n.value
+            ok = False
+            how = norm(n)
+            # form 1: inside `if identifier is None:` / `if not identifier:`
+            for t in walk_function(fi.node):
+                if isinstance(t, ast.If) and any(x is n for b in t.body for x in ast.walk(b)) and norm(t.test) in ("%s is None" % ipar, "not %s" % ipar):
+                    ok = True
+            # form 2: identifier or bundle.identifier   /   identifier if identifier is not None else bundle.identifier
+            if isinstance(v, ast.BoolOp) and isinstance(v.op, ast.Or) and norm(v.values[0]) == ipar:
+                ok = True
+            if isinstance(v, ast.IfExp) and norm(v.body) == ipar and ipar in norm(v.test):
+                ok = True
+            res.ob("add_bundle: `%s` lets the requested identifier win: %s" % (how[:70], ok))
+            if not ok:
+                res.fail(rule.id, "requested-identifier-overridden::%s" % how[:50], ctx.loc(q, n),
+                         "add_bundle replaces the requested identifier by the bundle's own one (`%s`)" % how[:70],
+                         "a bundle that already has an identifier, attached under another requested one, is filed under its own; a duplicate requested identifier is not refused")
+    if not res.instances:
+        res.ob("add_bundle never falls back on the bundle's own identifier", nontrivial=False)
+    return res
